@@ -16,4 +16,12 @@ def tenths (ver : String) (val : List Nat → List Nat) : List (List Int) :=
   | "31" => [[(Spec.V3.baseK true val : Nat)], [(Spec.V3.temporalK true val : Nat)], [(Spec.V3.environmentalK true val : Nat)]]
   | "40" => [[(Spec.V4.scoreK val : Nat)]]
   | _ => []
+/-- exact unrounded sub-scores (Impact, Exploitability) of v2/v3 as `(numerator, denominator)` pairs -/
+def subScores (ver : String) (val : List Nat → List Nat) : List (Int × Nat) :=
+  match ver with
+  | "20" => let i := Spec.V2.impact val; let e := Spec.V2.exploitability val; [(i.num, i.den), (e.num, e.den)]
+  | "30" | "31" =>
+    let i := Spec.V3.impact val; let e := Spec.V3.exploitability val
+    [(i.1, 10 ^ i.2), (e.1, 10 ^ e.2)]
+  | _ => []
 end SpecScores
